@@ -46,7 +46,9 @@ class GaussianKDE(DensityEstimator):
         cross_validation: bool = False,
         max_cv_samples=5000,
     ):
-        self.sample = sort(array(sample).flatten())  # sorted array of the samples
+        # sorted array of the samples (as floats: differences of an unsigned or narrow
+        # integer sample wrap around, in the data range and in every x - sample)
+        self.sample = sort(array(sample, dtype=float).flatten())
         # maximum number of samples to be used for cross-validation
         self.max_cvs = max_cv_samples
 
@@ -102,7 +104,7 @@ class GaussianKDE(DensityEstimator):
         :param x: axis location(s) at which to evaluate the estimate.
         :return: values of the PDF estimate at the specified locations.
         """
-        x = atleast_1d(x)
+        x = atleast_1d(x).astype(float)
         pdf = zeros(x.size)
         # look-up the region
         regions, index_groups = self.tree.region_groups(x)
@@ -121,7 +123,7 @@ class GaussianKDE(DensityEstimator):
         :param x: axis location(s) at which to evaluate the estimate.
         :return: values of the PDF estimate at the specified locations.
         """
-        x = atleast_1d(x)
+        x = atleast_1d(x).astype(float)
         cdf = zeros(x.size)
         # look-up the region
         regions, index_groups = self.tree.region_groups(x)
